@@ -9,6 +9,9 @@
  *   ac <flags> <defcb> <doc> [<opt> ...]       opt = <name>:<take>:<cb>:<sectionid>:<sections> (numbers hex)
  *   acp <pathlen> <flags> <defcb> <doc> [<opt> ...]   the same, the file is opened under a path of exactly
  *        <pathlen> (decimal) bytes (`/.` components inserted): the error message starts with the path
+ *   acpipe <flags> <defcb> <doc> [<opt> ...]   the same document read through a PIPE (path /dev/fd/N, a writer
+ *        thread feeds it): not seekable - rewind / fseek / ftell fail silently there; same result expected
+ *   inifp <sep> <mainpath> [<path>=<content> ...]   like inif, the MAIN file is a pipe (fstat reports size 0)
  *   fread <nbytes> <content>                   qfile_read(fp, &nbytes) on a stream holding <content> (hex);
  *        nbytes decimal, `-` = NULL pointer -> ok <n> <data> | null
  *        -> add <k> ret <n> <line|-> <msg|-> cbs <m> <cb> ...
@@ -65,14 +68,50 @@ int __wrap_pclose(FILE *f) {
 #define MAXVF 512
 static struct { char *path; char real[4200]; } vf[MAXVF];
 static int nvf;
+/* a document fed through a pipe by a writer thread */
+#include <pthread.h>
+typedef struct { int fd; unsigned char *p; size_t n; pthread_t th; } feed_t;
+#define MAXFEED 600
+static feed_t feeds[MAXFEED];
+static int nfeeds;
+static void *feeder(void *arg) {
+    feed_t *f = arg; size_t off = 0;
+    while (off < f->n) { ssize_t k = write(f->fd, f->p + off, f->n - off); if (k <= 0) break; off += (size_t) k; }
+    close(f->fd);
+    return NULL;
+}
+/* -> read end of a new pipe that will deliver p[0..n) (copied), or -1 */
+static int feed_pipe(const unsigned char *p, size_t n) {
+    int pfd[2];
+    if (nfeeds >= MAXFEED || pipe(pfd) != 0) return -1;
+    feed_t *f = &feeds[nfeeds++];
+    f->fd = pfd[1]; f->n = n; f->p = malloc(n ? n : 1); if (n) memcpy(f->p, p, n);
+    pthread_create(&f->th, NULL, feeder, f);
+    return pfd[0];
+}
+static void feeds_join(void) {
+    for (int i = 0; i < nfeeds; i++) { pthread_join(feeds[i].th, NULL); free(feeds[i].p); }
+    nfeeds = 0;
+}
+static const char *pipe_path; static bytes_t pipe_content;      /* inifp: this path is a pipe */
+
 int __real_open(const char *path, int flags, ...);
 int __wrap_open(const char *path, int flags, ...) {
     (void) flags;
+    if (pipe_path != NULL && strcmp(pipe_path, path) == 0) return feed_pipe(pipe_content.p, pipe_content.n);
     for (int i = 0; i < nvf; i++)
         if (strcmp(vf[i].path, path) == 0) return __real_open(vf[i].real, O_RDONLY, 0);
     errno = ENOENT;
     return -1;
 }
+
+/* ---------------------------------------------------------------- ambient errno
+ * Before EVERY library call one of these values is planted, chosen from the text of the operation line
+ * (a replay of the single operation plants the same value). No result may depend on the errno left
+ * behind by earlier, unrelated calls - the models have no ambient errno at all. */
+static const int AMBIENT[8] = {0, ENOMEM, ERANGE, EINTR, ENOENT, EINVAL, EAGAIN, ENOBUFS};
+static unsigned op_hash, op_call;
+static void plant_errno(void) { errno = AMBIENT[(op_hash + op_call++) % 8]; }
 
 /* ---------------------------------------------------------------- watchdog */
 static char tmp_path[4096];
@@ -158,7 +197,7 @@ static void do_ini(int nw, char **w) {
     }
     char *s = cstr_exact(&doc);
     alarm(WATCHDOG_S);
-    errno = ENOMEM;   /* poison: no result may depend on the errno left by earlier, unrelated calls */
+    plant_errno();
     qlisttbl_t *t = qconfig_parse_str(NULL, s, (char) sep.p[0]);
     alarm(0);
     if (t == NULL) {
@@ -176,7 +215,7 @@ static void do_ini(int nw, char **w) {
 }
 
 /* inif <sep> <mainpath> [<path>=<content> ...]   -> ok <n> <name>=<value> ... | null */
-static void do_inif(int nw, char **w) {
+static void do_inif(int nw, char **w, int main_is_pipe) {
     bytes_t sep, mp;
     if (!unhex(w[1], &sep) || sep.n != 1 || !unhex(w[2], &mp)) { printf("bad-op"); return; }
     nvf = 0;
@@ -190,13 +229,16 @@ static void do_inif(int nw, char **w) {
         snprintf(vf[nvf].real, sizeof(vf[nvf].real), "%s.f%d", tmp_path, nvf);
         FILE *fp = fopen(vf[nvf].real, "w");
         if (fp) { if (v.n) fwrite(v.p, 1, v.n, fp); fclose(fp); }
+        if (main_is_pipe && pipe_path == NULL && n.n == mp.n && memcmp(n.p, mp.p, n.n) == 0) {
+            pipe_path = vf[nvf].path; pipe_content = v; v.p = NULL;
+        }
         free(n.p); free(v.p);
         nvf++;
     }
     clearenv();
     char *main_path = cstr_exact(&mp);
     alarm(WATCHDOG_S);
-    errno = ENOMEM;   /* poison, see do_ini */
+    plant_errno();
     qlisttbl_t *t = qconfig_parse_file(NULL, main_path, (char) sep.p[0]);
     alarm(0);
     if (t == NULL) {
@@ -209,6 +251,8 @@ static void do_inif(int nw, char **w) {
         }
         t->free(t);
     }
+    feeds_join();
+    if (pipe_path != NULL) { pipe_path = NULL; free(pipe_content.p); }
     for (int i = 0; i < nvf; i++) { unlink(vf[i].real); free(vf[i].path); }
     nvf = 0;
     free(main_path); free(sep.p); free(mp.p);
@@ -229,8 +273,9 @@ static const char *path_of_length(size_t want) {
     return padded_path;
 }
 
-static void do_ac(int nw, char **w, size_t pathlen) {
+static void do_ac(int nw, char **w, size_t pathlen, int through_pipe) {
     const char *use_path = pathlen ? path_of_length(pathlen) : tmp_path;
+    char fdpath[64]; int rfd = -1;
     unsigned flags = (unsigned) hexnum(w[1]);
     int defcb = atoi(w[2]);
     bytes_t doc;
@@ -248,10 +293,17 @@ static void do_ac(int nw, char **w, size_t pathlen) {
         opts[i].sectionid = hexnum(f[3]);
         opts[i].sections = hexnum(f[4]);
     }
-    FILE *fp = fopen(tmp_path, "w");
-    if (!fp) { printf("bad-tmp"); return; }
-    if (doc.n) fwrite(doc.p, 1, doc.n, fp);
-    fclose(fp);
+    if (through_pipe) {
+        rfd = feed_pipe(doc.p, doc.n);
+        if (rfd < 0) { printf("bad-pipe"); return; }
+        snprintf(fdpath, sizeof fdpath, "/dev/fd/%d", rfd);
+        use_path = fdpath;
+    } else {
+        FILE *fp = fopen(tmp_path, "w");
+        if (!fp) { printf("bad-tmp"); return; }
+        if (doc.n) fwrite(doc.p, 1, doc.n, fp);
+        fclose(fp);
+    }
 
     char *cbtext = NULL; size_t cblen = 0;
     cbout = open_memstream(&cbtext, &cblen); ncb = 0;
@@ -259,9 +311,10 @@ static void do_ac(int nw, char **w, size_t pathlen) {
     int added = conf->addoptions(conf, opts);
     if (defcb) conf->setdefhandler(conf, defcb == 2 ? cb_def_refusing : cb_def);
     alarm(WATCHDOG_S);
-    errno = ENOMEM;   /* poison, see do_ini */
+    plant_errno();
     int ret = conf->parse(conf, use_path, (uint8_t) flags);
     alarm(0);
+    if (rfd >= 0) { close(rfd); feeds_join(); }
     fclose(cbout);
     printf("add %d ret %d ", added, ret);
     const char *em = conf->errmsg(conf);
@@ -293,6 +346,7 @@ static void do_fread(char **w) {
     FILE *fp = c.n ? fmemopen(c.p, c.n, "r") : tmpfile();
     if (!fp) { printf("bad-tmp"); free(c.p); return; }
     alarm(WATCHDOG_S);
+    plant_errno();
     char *d = qfile_read(fp, nbp);
     alarm(0);
     fclose(fp);
@@ -322,14 +376,20 @@ int main(int argc, char **argv) {
             snprintf(tmp_path, sizeof(tmp_path), "%s/conf-%d.tmp", dirname(exe), (int) getpid());
     }
     char **w = malloc(sizeof(char *) * 4096);
+    signal(SIGPIPE, SIG_IGN);          /* a parser that stops early leaves the writer of a pipe behind */
     while ((len = getline(&line, &cap, stdin)) > 0) {
+        op_hash = 2166136261u; op_call = 0;
+        for (ssize_t i = 0; i < len; i++) if (line[i] != '\n' && line[i] != '\r') op_hash = (op_hash ^ (unsigned char) line[i]) * 16777619u;
+        op_hash ^= op_hash >> 15;
         int nw = 0; char *save = NULL;
         for (char *t = strtok_r(line, " \t\r\n", &save); t && nw < 4096; t = strtok_r(NULL, " \t\r\n", &save)) w[nw++] = t;
         if (nw == 0) continue;
         if (!strcmp(w[0], "ini") && nw >= 3) do_ini(nw, w);
-        else if (!strcmp(w[0], "inif") && nw >= 3) do_inif(nw, w);
-        else if (!strcmp(w[0], "ac") && nw >= 4) do_ac(nw, w, 0);
-        else if (!strcmp(w[0], "acp") && nw >= 5) do_ac(nw - 1, w + 1, (size_t) strtoul(w[1], NULL, 10));
+        else if (!strcmp(w[0], "inif") && nw >= 3) do_inif(nw, w, 0);
+        else if (!strcmp(w[0], "inifp") && nw >= 3) do_inif(nw, w, 1);
+        else if (!strcmp(w[0], "ac") && nw >= 4) do_ac(nw, w, 0, 0);
+        else if (!strcmp(w[0], "acpipe") && nw >= 4) do_ac(nw, w, 0, 1);
+        else if (!strcmp(w[0], "acp") && nw >= 5) do_ac(nw - 1, w + 1, (size_t) strtoul(w[1], NULL, 10), 0);
         else if (!strcmp(w[0], "fread") && nw == 3) do_fread(w);
         else printf("bad-op");
         printf("\n");
